@@ -44,6 +44,14 @@ RpcCleanCall(p, o) ==
     /\ c.rpcvers = << 0, 2 >>
     /\ c.credlen % 4 = 0 /\ c.veriflen = 0
 
+(* a call whose header (up to the verifier length word) has not arrived completely yet: the fixed *)
+(* words are there and clean, the credentials they announce are not                               *)
+RpcHdrIncomplete(p, o) ==
+    /\ Len(p) >= o + 32
+    /\ RU32(p, o + 4) = << 0, 0 >> /\ RU32(p, o + 8) = << 0, 2 >>
+    /\ LET cl == RU32(p, o + 28) IN
+       Small32(cl) /\ cl[2] <= 400 /\ cl[2] % 4 = 0 /\ Len(p) < o + 32 + cl[2] + 8
+
 (* record mark of a TCP stream: last-fragment bit and 31-bit length *)
 RmLast(p) == p[1] >= 128
 RmLen(p)  == << (p[1] % 128) * 256 + p[2], RU16(p, 2) >>
